@@ -62,6 +62,16 @@ def parse_modifies(run, texts, env, fi=None, dyn_cls=None):
     out = []
     for t in texts:
         t = t.strip()
+        if t.endswith('?'):
+            # optional location: skipped when the field does not exist for the receiver's class
+            t = t[:-1]
+            m0 = re.match(r'^(.*)\.([A-Za-z_][A-Za-z_0-9]*)$', t)
+            try:
+                base = eval_expr_in(run, m0.group(1), env, fi=fi, dyn_cls=dyn_cls)
+                if not (isinstance(base, Ref) and m0.group(2) in run.deref(base).fields):
+                    continue
+            except (Unsupported, PyRaise):
+                continue
         if t.endswith('.**'):
             v = eval_expr_in(run, t[:-3], env, fi=fi, dyn_cls=dyn_cls)
             if isinstance(v, Ref):
